@@ -62,23 +62,27 @@ def parseAbs (s : Str) : Option (List Str) :=
 structure Hole where
   current : Bool
   e : Emitted
-deriving Repr
+deriving Repr, DecidableEq
+
+def curTag : Str := "current()/".toList
+def lsTag : Str := "instance('__last-saved')".toList
+
+/-- the hole after an optional `current()/` has been taken off -/
+def parseCore (current : Bool) (s : Str) : Option Hole :=
+  if startsWith s lsTag then
+    if current then none else (parseAbs (s.drop lsTag.length)).map fun p => ⟨false, .lastSaved p⟩
+  else if s.head? = some '/' then
+    if current then none else (parseAbs s).map fun p => ⟨false, .abs p⟩
+  else
+    let segs := splitOnChar '/' s
+    let k := countLeadingDotDot segs
+    let down := segs.drop k
+    if k > 0 && !down.isEmpty && down.all goodSeg then some ⟨current, .rel k down⟩ else none
 
 /-- `[current()/](../)^k name/…`, `/abs/path`, or `instance('__last-saved')/abs/path` -/
 def parseHole (s0 : Str) : Option Hole :=
   let s := strip s0
-  let cur := "current()/".toList
-  let ls := "instance('__last-saved')".toList
-  let (current, s) := if startsWith s cur then (true, s.drop cur.length) else (false, s)
-  if startsWith s ls then
-    if current then none else (parseAbs (s.drop ls.length)).map fun p => ⟨false, .lastSaved p⟩
-  else match s with
-    | '/' :: _ => if current then none else (parseAbs s).map fun p => ⟨false, .abs p⟩
-    | _ =>
-      let segs := splitOnChar '/' s
-      let k := countLeadingDotDot segs
-      let down := segs.drop k
-      if k > 0 && !down.isEmpty && down.all goodSeg then some ⟨current, .rel k down⟩ else none
+  if startsWith s curTag then parseCore true (s.drop curTag.length) else parseCore false s
 
 end Pyxv.Refs
 
